@@ -337,7 +337,11 @@ class StmtMixin:
         raise OutOfSubset(f"line {s.lineno}: try/except")
 
     # ------------------------------------------------------------------ loops
-    def next_loop_id(self):
+    def next_loop_id(self, node=None):
+        """Loop ordinal in source order (pre-order), stable whatever path reaches the loop."""
+        ids = getattr(self, "loop_ids", None)
+        if ids is not None and node is not None and id(node) in ids:
+            return ids[id(node)]
         i = self.loop_counter
         self.loop_counter += 1
         return i
@@ -353,7 +357,7 @@ class StmtMixin:
     def ex_For(self, s, st):
         if s.orelse:
             raise OutOfSubset(f"line {s.lineno}: for/else")
-        lid = self.next_loop_id() if self.inline_depth == 0 else -1
+        lid = self.next_loop_id(s) if self.inline_depth == 0 else -1
         # count nested loops now so ids are stable whatever path is taken
         nested = sum(1 for n in ast.walk(s) if isinstance(n, (ast.For, ast.While))) - 1
         first_nested = self.loop_counter
@@ -419,6 +423,9 @@ class StmtMixin:
     def loop_modifies(self, body, st):
         """(scalar names, heap objects, object fields) possibly changed by the body (syntactic)."""
         names = assigned_names(body)
+        if self.contract is not None and self.inline_depth == 0 and self.contract.yield_ghost and \
+                any(isinstance(n, ast.Yield) for s_ in body for n in ast.walk(s_)):
+            names |= set(self.contract.yield_ghost)
         objs = set()
         fields = set()
         for stmt in body:
@@ -618,25 +625,40 @@ class StmtMixin:
                 names.discard(n.id)
         st.env[kname] = VInt(0)
         self.check_invs(st, spec, "inv-init", lid, var, line)
-        body_st = st.fork()
-        self.havoc_loop(body_st, names, objs, fields, f"L{lid}")
+        body0 = st.fork()
+        self.havoc_loop(body0, names, objs, fields, f"L{lid}")
         k = smt.fresh(kname)
-        body_st.env[kname] = VInt(k)
-        body_st.assume(z3.And(0 <= k, k < seq.n))
-        self.assume_invs(body_st, spec)
-        self.bind_target(s.target, seq.elem(k), body_st, line)
+        body0.env[kname] = VInt(k)
+        body0.assume(z3.And(0 <= k, k < seq.n))
+        self.assume_invs(body0, spec)
+        self.cover(body0, f"loop-body#{lid}", line)
+        # an appended last element is executed as its own branch (no if-then-else block values)
+        branches = []
+        if seq.last is not None:
+            n0, f0, item = seq.last
+            b1, b2 = body0, body0.fork()
+            b1.assume(k < n0)
+            b2.assume(k == n0)
+            if self.feasible(b1):
+                branches.append((b1, lambda kk: f0(kk)))
+            if self.feasible(b2):
+                branches.append((b2, lambda kk: item))
+        else:
+            branches.append((body0, seq.elem))
         exits = []
         save = self.loop_counter
-        if self.inline_depth == 0:
-            self.loop_counter = first_nested
-        for s2, oc in self.exec_block(s.body, body_st):
-            if oc.kind in (NORMAL, "continue"):
-                s2.env[kname] = VInt(k + 1)
-                self.check_invs(s2, spec, "inv-keep", lid, var, line)
-            elif oc.kind == "break":
-                exits.append((s2, Outcome(NORMAL)))
-            else:
-                exits.append((s2, oc))
+        for body_st, elem_fn in branches:
+            self.bind_target(s.target, elem_fn(k), body_st, line)
+            if self.inline_depth == 0:
+                self.loop_counter = first_nested
+            for s2, oc in self.exec_block(s.body, body_st):
+                if oc.kind in (NORMAL, "continue"):
+                    s2.env[kname] = VInt(k + 1)
+                    self.check_invs(s2, spec, "inv-keep", lid, var, line)
+                elif oc.kind == "break":
+                    exits.append((s2, Outcome(NORMAL)))
+                else:
+                    exits.append((s2, oc))
         if self.inline_depth == 0:
             self.loop_counter = max(save, self.loop_counter)
         after = st
@@ -649,7 +671,7 @@ class StmtMixin:
     def ex_While(self, s, st):
         if s.orelse:
             raise OutOfSubset(f"line {s.lineno}: while/else")
-        lid = self.next_loop_id() if self.inline_depth == 0 else -1
+        lid = self.next_loop_id(s) if self.inline_depth == 0 else -1
         nested = sum(1 for n in ast.walk(s) if isinstance(n, (ast.For, ast.While))) - 1
         first_nested = self.loop_counter
         if self.inline_depth == 0:
